@@ -18,7 +18,7 @@ def sh(cmd, cwd=None, env=None, timeout=1800):
     return p.returncode, p.stdout
 
 
-SCRATCH = '/tmp/verif_eval'
+SCRATCH = os.environ.get('EVAL_SCRATCH', '/tmp/verif_eval')
 
 
 def main():
